@@ -598,10 +598,21 @@ func (c *Client) negotiateVersion(ctx context.Context) error {
 		return err
 	}
 	serverVersions := bi.ResponsePayload.(*payloads.DiscoverVersionsResponsePayload).ProtocolVersion
-	if len(serverVersions) == 0 {
+	// Adopt the highest version that is both advertised by the server and supported by the client,
+	// whatever the order of the server's list and whatever else it contains.
+	var best *kmip.ProtocolVersion
+	for i := range serverVersions {
+		if !slices.Contains(c.supportedVersions, serverVersions[i]) {
+			continue
+		}
+		if best == nil || ttlv.CompareVersions(serverVersions[i], *best) > 0 {
+			best = &serverVersions[i]
+		}
+	}
+	if best == nil {
 		return errors.New("Protocol version negotiation failed. No common version found")
 	}
-	c.version = &serverVersions[0]
+	c.version = best
 	return nil
 }
 
